@@ -11,7 +11,8 @@ for kind in ('seeded', 'reverts'):
         meta_p = d + 'meta.json'
         meta = json.load(open(meta_p)) if os.path.exists(meta_p) else {}
         if not os.path.exists(res):
-            rows.append((kind, name, meta, None))
+            # not part of the last run: the result recorded in meta.json by an earlier run stands (marked in the table)
+            rows.append((kind, name, meta, 'recorded' if meta.get('verif') else None))
             continue
         import re as _re
         r = json.loads(_re.sub(r'"wall_s":\.', '"wall_s":0.', open(res).read()))
@@ -42,10 +43,13 @@ with open(f'{root}/seeded/RESULTS.md', 'w') as f:
         else:
             c = meta['verif']['caught_by']
             cb = ', '.join(('**%s**' % x) if x == target else x for x in c) if c else '**MISSED**'
+            if r == 'recorded':
+                cb += ' †'
         f.write(f'| {name} | {target} | {summ} | {cb} |\n')
     n = sum(1 for k, _, m, r in rows if r is not None)
     c = sum(1 for k, _, m, r in rows if r is not None and m['verif']['caught_by'])
     t = sum(1 for k, _, m, r in rows if r is not None and m.get('property') in m['verif']['caught_by'])
     s = sum(1 for k, _, m, r in rows if r is not None and k == 'seeded')
+    f.write('\n† result recorded by the previous sensitivity run (harness as of /verif commit f0edb69, /repo e0b2afd); the last run (final harness, /repo 05b78c5) covered the changes of round 4 (H, I), the revert of 05b78c5, the patches rebased onto 05b78c5 and the first 24 changes in alphabetical order.\n')
     f.write(f'\n{c} of {n} changes are caught by at least one check; {t} of the {s} sub-agent changes are caught by the check of the property they target.\n')
 print('written', len(rows))
